@@ -173,6 +173,29 @@ fn main() {
             let agg = core::run_batch_local(engine.as_ref(), &cfg);
             println!("{}", agg.to_json());
         }
+        Some("runseed") => {
+            // runseed <engine> <property> <tier> <run-seed>: execute the one run this seed generates (used to replay a
+            // run that kills its process)
+            let engine = engine_by_name(&args[1]).expect("engine");
+            let property = static_prop(&args[2]);
+            let thorough = args[3] == "thorough";
+            let run_seed: u64 = args[4].parse().unwrap();
+            let mut ch = Choices::from_seed(run_seed);
+            let ctx = RunCtx {
+                property,
+                thorough,
+                want_trace: true,
+            };
+            match core::run_once(engine.as_ref(), &mut ch, &ctx) {
+                Ok(o) => {
+                    for l in &o.trace {
+                        println!("{l}");
+                    }
+                    println!("the run completed ({} violations)", o.violations.len());
+                }
+                Err(e) => println!("harness error: {e}"),
+            }
+        }
         Some("trace") => {
             // trace <engine> <property> <index> [thorough]: print the recorded history of one run (debugging aid)
             let engine = engine_by_name(&args[1]).expect("engine");
@@ -274,6 +297,29 @@ fn main() {
                 thorough: doc.thorough,
                 want_trace: true,
             };
+            if doc.aborts_process {
+                // execute the run, named by its seed, in a child: it is expected to kill its process
+                use std::os::unix::process::ExitStatusExt;
+                let status = std::process::Command::new(std::env::current_exe().expect("current exe"))
+                    .arg("runseed")
+                    .arg(&doc.engine)
+                    .arg(&doc.property)
+                    .arg(if doc.thorough { "thorough" } else { "quick" })
+                    .arg(doc.run_seed.to_string())
+                    .status()
+                    .expect("spawn child");
+                match status.signal() {
+                    Some(sig) => {
+                        println!("violation: property={} rule={} detail=the run killed its process again (signal {sig})", doc.property, doc.rule);
+                        println!("VIOLATION property={} replay={}", doc.property, path.display());
+                        std::process::exit(1);
+                    }
+                    None => {
+                        println!("replay did not reproduce {}/{} (the child exited with {status})", doc.property, doc.rule);
+                        std::process::exit(0);
+                    }
+                }
+            }
             let mut ch = Choices::from_record(&doc.choices);
             match core::run_once(engine.as_ref(), &mut ch, &ctx) {
                 Ok(o) => {
